@@ -40,6 +40,11 @@
 (*   "trace" the choices come from a trace recorded from the real code (script), the     *)
 (*           recorded snapshots of V / solved must equal the machine's after every trial *)
 (*   "judge" no machine: exact evaluation of a policy returned by the real code (pol)    *)
+(*   "judge2" the same for two-scale rewards r = 2^ka * RA + 2^kb * RB (ka - kb >= 19:    *)
+(*           step costs of 5e5 next to costs of 2e-4, or unit costs next to 1e-9): the    *)
+(*           32-bit arithmetic cannot hold such numbers, so the scale stays symbolic: the *)
+(*           oracle is the lexicographic optimum over (RA, RB) and values are pairs       *)
+(* The discount may be 0 (GN = 0): a legal, myopic discounted criterion.                  *)
 (* oracle = 0 in a record skips the optimal-value oracle (the driver then takes it from   *)
 (* another record of the same instance).                                                 *)
 EXTENDS MDP, Json, IOUtils
@@ -208,7 +213,7 @@ Init ==
   /\ ord \in {o \in Orders(Batch[iid]) : \A s \in St(Batch[iid]) : o[s] \in PermSeqs(Batch[iid].aord[s])}
   /\ V = [s \in St(Batch[iid]) |-> IF IsAbs(Batch[iid], s) THEN 0 ELSE Batch[iid].h[s]]
   /\ upd = {} /\ solved = {} /\ stack = <<>> /\ inexact = FALSE
-  /\ pc = IF ModeOf(Batch[iid]) = "judge" THEN "judge" ELSE "idle"
+  /\ pc = IF ModeOf(Batch[iid]) \in {"judge", "judge2"} THEN ModeOf(Batch[iid]) ELSE "idle"
   /\ hist = [ch |-> <<>>, fail |-> 0, succ |-> 0]
   /\ ntr = 0 /\ mism = 0
   /\ orc = IF Batch[iid].oracle = 0 THEN NoOracle ELSE Oracle(Batch[iid])
@@ -303,7 +308,7 @@ Finish ==
   /\ term' = IF inexact THEN <<>> ELSE TermBundle(M, V, upd, ord, orc)
   /\ UNCHANGED <<iid, V, upd, solved, ord, stack, inexact, hist, orc>>
 
-JudgeStep == pc = "judge" /\ pc' = "judged" /\ UNCHANGED <<iid, V, upd, solved, ord, stack, inexact, hist, ntr, mism, orc, term>>
+JudgeStep == pc \in {"judge", "judge2"} /\ pc' = (IF pc = "judge" THEN "judged" ELSE "judged2") /\ UNCHANGED <<iid, V, upd, solved, ord, stack, inexact, hist, ntr, mism, orc, term>>
 
 Next == StartTrial \/ TrialStep \/ EndTrial \/ CheckStep \/ Finish \/ JudgeStep
 Spec == Init /\ [][Next]_vars
@@ -315,7 +320,7 @@ View == <<iid, V, upd, solved, ord, stack, pc, inexact, ntr, mism, IF ModeOf(M) 
 
 \* ------------------------------------------------------------------ (P) properties
 Done == pc = "done" /\ term # <<>>
-Machine == pc \notin {"judge", "judged"} /\ ~inexact
+Machine == pc \notin {"judge", "judged", "judge2", "judged2"} /\ ~inexact
 \* (P1) the stored and the defaulted values never fall below the optimum (integer form of UpperClause:
 \*      orc.lo[s] is the smallest representable value >= V*(s))
 Upper == (Machine /\ orc.vstar # <<>>) => \A s \in St(M) : V[s] >= orc.lo[s]
@@ -347,9 +352,15 @@ AbsorbingZero == /\ Machine => \A s \in ExplAbs(M) : V[s] = 0
 GapBoundLC    == (Machine /\ Done /\ orc.mono) => term.gap2 # "bad"
 ReturnBoundLC == (Machine /\ Done /\ orc.mono) => term.ret2 # "bad"
 \* instance filters (evaluated in the initial states): a generator bug must not turn into a verdict
+\* MDP!WellFormed with the discount 0 admitted
+WellFormed0(m) ==
+  /\ \A s \in St(m) : \A a \in Avail(m, s) : SumTo([t \in St(m) |-> m.P[s][a][t]], m.N) = m.PD
+  /\ \A s \in St(m) : \A a \in Ac(m) : \A t \in St(m) : m.P[s][a][t] >= 0
+  /\ SumTo([s \in St(m) |-> m.p0[s]], m.N) = m.ID
+  /\ m.GN >= 0 /\ m.GN <= m.GD
 InstancesOK ==
   (upd = {} /\ solved = {} /\ stack = <<>> /\ ntr = 0) =>
-     /\ WellFormed(M) /\ orc.proper /\ orc.adm # "bad"
+     /\ WellFormed0(M) /\ orc.proper /\ orc.adm # "bad"
      /\ \A s \in St(M) : Range(M.aord[s]) = Avail(M, s) /\ Len(M.aord[s]) = Cardinality(Avail(M, s))
      /\ InitPos(M) \subseteq InitListed(M) /\ InitPos(M) # {}
 
@@ -371,8 +382,31 @@ JudgeRecord ==
   IN [iid |-> iid, tag |-> M.tag, kind |-> "judge", vstar |-> orc.vstar, vinit |-> orc.vinit, adm |-> orc.adm,
       mono |-> orc.mono, proper |-> orc.proper,
       pv |-> ev.pv, steps |-> ev.steps, pinit |-> ev.pinit, ninit |-> ev.ninit]
+\* ---- two-scale rewards (mode "judge2"): values are pairs (A, B) standing for 2^ka * A + 2^kb * B
+MA(m) == [m EXCEPT !.R = m.RA]
+MB(m) == [m EXCEPT !.R = m.RB]
+LexVals(m, w, qd) == <<TLCEval(PolicyValue(MA(m), w, qd)), TLCEval(PolicyValue(MB(m), w, qd))>>
+LexGeq(a1, b1, a2, b2) == RLess(a2, a1) \/ (a1 = a2 /\ ~RLess(b1, b2))
+\* the lexicographic optimum: a deterministic policy that is lexicographically best at every state at once
+LexOracle(m) ==
+  LET vals == TLCEval({LexVals(m, AsWeights(m, pi), 1) : pi \in DetPols(m)})
+      best == {x \in vals : \A y \in vals : \A s \in NonAbs(m) : LexGeq(x[1][s], x[2][s], y[1][s], y[2][s])}
+  IN IF best = {} THEN [ok |-> FALSE, a |-> <<>>, b |-> <<>>]
+     ELSE LET x == CHOOSE x \in best : TRUE IN [ok |-> TRUE, a |-> x[1], b |-> x[2]]
+Judge2Record ==
+  LET sup == TLCEval([s \in NonAbs(M) |-> {a \in Ac(M) : M.pol[s][a] = 1}])
+      qd  == QDof(M, sup)
+      w   == TLCEval(Weights(M, sup, qd))
+      pv  == LexVals(M, w, qd)
+      lo  == LexOracle(M)
+  IN [iid |-> iid, tag |-> M.tag, kind |-> "judge2", ok |-> lo.ok, astar |-> lo.a, bstar |-> lo.b,
+      \* admissible: (hA, hB) lexicographically >= (A*, B*) at every non-absorbing state
+      adm |-> lo.ok /\ \A s \in NonAbs(M) : LexGeq(<<M.hA[s][1], M.hA[s][2]>>, <<M.hB[s][1], M.hB[s][2]>>, lo.a[s], lo.b[s]),
+      proper |-> \A pi \in DetPols(M) : LET st == TLCEval(StepsValue(M, AsWeights(M, pi), 1)) IN \A s \in NonAbs(M) : st[s] # POS,
+      apv |-> pv[1], bpv |-> pv[2], steps |-> StepsValue(M, w, qd)]
 Emit ==
   /\ (pc = "done" /\ term # <<>>) => PrintT(ToJson(TermRecord))
   /\ (pc = "diverged" \/ (pc = "done" /\ term = <<>>)) => PrintT(ToJson(DivergedRecord))
   /\ (pc = "judged") => PrintT(ToJson(JudgeRecord))
+  /\ (pc = "judged2") => PrintT(ToJson(Judge2Record))
 =============================================================================
